@@ -50,12 +50,16 @@ func c33linOf(t *Term) c33lin {
 	return l
 }
 
+// c33Opaque: sums that linear forms keep as one atom (the year and day-of-month of a civil date:
+// as a whole they carry a tight interval that their parts do not).
+var c33Opaque = map[*Term]bool{}
+
 func c33linAdd(l *c33lin, t *Term, m *big.Int, depth int) {
 	if t.IsConst() {
 		l.k.Add(l.k, new(big.Int).Mul(m, t.Val))
 		return
 	}
-	if depth < 200 {
+	if depth < 200 && !c33Opaque[t] {
 		switch t.Op {
 		case "+":
 			c33linAdd(l, t.Args[0], m, depth+1)
@@ -89,7 +93,7 @@ var c33Two64 = new(big.Int).Lsh(bi(1), 64)
 // (ite(c, X, X +- k*2^64) and X mod 2^64) are replaced by X, so the result is only congruent
 // to t modulo 2^64. c33unwrap turns that back into an equality when both lie in one window.
 func c33linMod(l *c33lin, t *Term, m *big.Int, depth int) {
-	if depth < 200 && !t.IsConst() {
+	if depth < 200 && !t.IsConst() && !c33Opaque[t] {
 		switch t.Op {
 		case "+":
 			c33linMod(l, t.Args[0], m, depth+1)
@@ -304,6 +308,21 @@ func c33tighten(t *Term, lo, hi *big.Int) {
 }
 
 func c33div1(a *Term, c int64) *Term {
+	// floor((g*X) / (g*c')) = floor(X / c') when every coefficient and the constant are multiples of g
+	if l := c33linOf(a); len(l.coef) > 0 {
+		g := new(big.Int).Abs(l.k)
+		g.GCD(nil, nil, g, bi(c))
+		for _, co := range l.coef {
+			g.GCD(nil, nil, g, new(big.Int).Abs(co))
+		}
+		if g.Cmp(bi(1)) > 0 && g.Cmp(bi(c)) < 0 {
+			r := c33lin{map[*Term]*big.Int{}, new(big.Int).Quo(l.k, g)}
+			for at, co := range l.coef {
+				r.coef[at] = new(big.Int).Quo(co, g)
+			}
+			return c33div1(r.term(), c/g.Int64())
+		}
+	}
 	cb := bi(c)
 	// pull out the part of the dividend that is a multiple of c:
 	// floor((c*X + R) / c) = X + floor(R / c)   (X integer)
@@ -515,7 +534,19 @@ func c33CivilOf(days *Term) (y, m, d *Term) {
 	m = c33MonthOfYday(ay)
 	_, d = c33SplitYday(ay)
 	d = c33norm(d)
+	if id := iv(days); id.lo != nil && !days.IsConst() && !y.IsConst() {
+		// the year is monotone in the day number
+		ylo, _, _ := c33CivilOf(ConstInt(id.lo))
+		yhi, _, _ := c33CivilOf(ConstInt(id.hi))
+		c33tighten(y, ylo.Val, yhi.Val)
+	}
 	if !days.IsConst() {
+		if !y.IsConst() {
+			c33Opaque[y] = true
+		}
+		if !d.IsConst() {
+			c33Opaque[d] = true
+		}
 		c33Civil[[3]*Term{y, m, d}] = days
 	}
 	return
@@ -523,6 +554,13 @@ func c33CivilOf(days *Term) (y, m, d *Term) {
 
 // absolute day numbers of -0200-01-01 and 3500-12-31 (the verified range of the inverse law)
 var c33CivilLo, c33CivilHi *big.Int
+
+func c33Norm(hi, lo *Term, base int64) (nhi, nlo *Term) {
+	q := c33div(lo, base)
+	nhi = c33norm(IntBin("+", hi, q))
+	nlo = c33mod(lo, base)
+	return
+}
 
 // ---------------------------------------------------------------- self test
 
@@ -553,6 +591,29 @@ func c33SelfTest() {
 	for am := uint32(3); am <= 14; am++ {
 		if (979*am-2919)>>5 != (153*am-457)/5 {
 			panic("x_c33: dateToAbsDays month trick differs from the classical form")
+		}
+	}
+	// (a1) time.norm = floor division, on a sample grid (copy of the Go 1.26.5 source)
+	goNorm := func(hi, lo, base int) (int, int) {
+		if lo < 0 {
+			n := (-lo-1)/base + 1
+			hi -= n
+			lo += n * base
+		}
+		if lo >= base {
+			n := lo / base
+			hi += n
+			lo -= n * base
+		}
+		return hi, lo
+	}
+	for _, base := range []int{12, 24, 60, 1000000000} {
+		for _, lo := range []int{-3*base - 1, -3 * base, -base - 1, -base, -base + 1, -1, 0, 1, base - 1, base, base + 1, 2*base - 1, 2 * base, 5*base + 7, -5*base - 7, 123456789012, -123456789012} {
+			h1, l1 := goNorm(17, lo, base)
+			nh, nl := c33Norm(c33c(17), c33c(int64(lo)), int64(base))
+			if !nh.IsConst() || !nl.IsConst() || nh.Val.Int64() != int64(h1) || nl.Val.Int64() != int64(l1) {
+				panic(fmt.Sprintf("x_c33: norm differs at lo=%d base=%d", lo, base))
+			}
 		}
 	}
 	// (a2) days-of-civil(civil-of-days(n)) = n for every day of years -200..3500 (real time package)
@@ -724,6 +785,22 @@ func init() {
 		}
 		_, _, d := c33CivilOf(days)
 		return mkIntVal(types.Int, d)
+	})
+	// time.norm(hi, lo, base): nhi = hi + floor(lo/base), nlo = lo mod base (no int overflow inside
+	// the stated intervals); checked against a copy of the source on samples in c33SelfTest.
+	reg("time.norm", func(fr *frame, a []value) value {
+		base, ok := a[2].(int)
+		if !ok || base <= 0 {
+			return nil
+		}
+		lim := new(big.Int).Lsh(bi(1), 61)
+		nlim := new(big.Int).Neg(lim)
+		hi, lo := intTermOf(a[0]), intTermOf(a[1])
+		if !c33bounded(hi, nlim, lim) || !c33bounded(lo, nlim, lim) {
+			return nil
+		}
+		nhi, nlo := c33Norm(hi, lo, int64(base))
+		return tuple{mkIntVal(types.Int, nhi), mkIntVal(types.Int, nlo)}
 	})
 	reg("(time.absSeconds).days", func(fr *frame, a []value) value {
 		abs := intTermOf(a[0])
@@ -940,6 +1017,13 @@ func c33Pre(op token.Token, k types.BasicKind, a, b *Term) value {
 		if c.IsConst() && !other.IsConst() && nonneg(other) {
 			if n, ok := isPow2Minus1(c.Val); ok && n < 62 {
 				return ti(c33mod(other, int64(1)<<uint(n)))
+			}
+		}
+		if c.IsConst() && !other.IsConst() && c.Val.Sign() > 0 {
+			// other lies below the lowest set bit of c: the result is 0
+			low := new(big.Int).Lsh(bi(1), c.Val.TrailingZeroBits())
+			if i := iv(other); i.lo != nil && i.lo.Sign() >= 0 && i.hi.Cmp(low) < 0 {
+				return ti(c33c(0))
 			}
 		}
 	case token.OR, token.XOR:
